@@ -8,6 +8,7 @@ from ..r_rings import rule_hybridization_table as _rule_hyb
 from ..r_rings import rule_simple_cycle_guard as _rule_simple, rule_pid_replace_or_extend as _rule_pid
 from ..r_round8 import rule_canonic_ring_orientation as _r8_canon
 from ..r_round9 import rule_scissors_pairing as _r9_sc
+from ..r_round10 import rule_shared_bond_threshold as _r10_thr
 
 LEVEL = 'other'
 
@@ -25,3 +26,4 @@ def run(ck, repo):
     _rule_pid(ck, repo, 'C06.D5-pid-tables')
     _r8_canon(ck, repo, 'C06.D6-canonic-ring-orientation')
     _r9_sc(ck, repo, 'C06.D7-scissors-pairing')
+    _r10_thr(ck, repo, 'C06.D8-shared-bond-threshold')
